@@ -80,6 +80,8 @@ func (p *Peer) SetReplicator(ctx context.Context, repInfo peer.AddrInfo, collect
 		for _, id := range storedRep.CollectionIDs {
 			storedCollectionIDs[id] = struct{}{}
 		}
+		// the addresses given now are the ones the node uses from here on, also after a restart
+		storedRep.Info = repInfo
 	} else {
 		storedRep.Info = repInfo
 		storedRep.LastStatusChange = time.Now()
